@@ -960,10 +960,12 @@ func (sh *SessionHub) set(sess *session) {
 	if !loaded {
 		return
 	}
-	sh.sessions.Store(sess.ID(), sess)
+	// Close the old session first: its close path deletes the id from the hub,
+	// which would otherwise remove the new session stored under the same id.
 	if oldSess := _sess.(*session); sess != oldSess {
 		oldSess.Close()
 	}
+	sh.sessions.Store(sess.ID(), sess)
 }
 
 // get gets *session by id.
